@@ -184,6 +184,22 @@ theorem C14_bits_disjoint (c : Cfg) (font : Font) (isSimple : Bool) (infos : Lis
 
 example : (0 : Nat) < genCfg.maxBits := by decide
 
+/-- Whenever user features are present (`is_simple = false`: the infos are sorted before the merge), the deduplicated
+    infos and the map entries have strictly increasing — hence pairwise distinct — tags: one entry per tag, which is
+    what `get_mask`'s binary search relies on (and what makes "the mask of a feature" well defined). -/
+theorem C14_feature_tags_distinct (c : Cfg) (font : Font) (infos : List Info) :
+    (dedupInfos c false infos).Pairwise (fun a b => a.tag < b.tag) ∧
+    (collectFeatureMaps c font false infos).feats.Pairwise (fun f g => f.tag < g.tag) := by
+  refine ⟨dedupInfos_sorted c infos, ?_⟩
+  obtain ⟨extra, he, hs⟩ := feats_sublist (c := c) font (dedupInfos c false infos) (Alloc.init c)
+  have hp : ((dedupInfos c false infos).map (·.tag)).Pairwise (· < ·) :=
+    List.pairwise_map.2 (dedupInfos_sorted c infos)
+  have hq := List.pairwise_map.1 (hp.sublist hs)
+  unfold collectFeatureMaps allocAll
+  simp only [Bool.false_eq_true, if_false]
+  rw [he]
+  simpa [Alloc.init] using hq
+
 /-- The value written by `setup_masks` (`value << shift`, masked) is read back from the glyph as `value mod 2^b`
     by `(glyph_mask & mask) >> shift`, whatever the glyph's other bits were; in particular every value up to
     `max_value` that is below `2^MAX_BITS` comes back unchanged.  (Values ≥ 2^b wrap — this is what the code does;
@@ -351,5 +367,57 @@ theorem C14_zero_disables (c : Cfg) (font : Font) :
     cases h : mask.testBit k <;> simp
   · intro lk lm g rs h
     simp [applyGlyph, h]
+
+/-! ## findings of this check, as counter-theorems about the model (replayed on the crate by the search) -/
+
+/-- finding `value-wraps-mod-256`: a value is NOT clamped to the feature's bit width; `2^b` (256 for the 8-bit cap)
+    is written as 0, i.e. `aalt=256` / `smcp[0:3]=256` switch the feature off. -/
+theorem known_C14_value_wraps (c : Cfg) (f : FMap) (b : Nat) (g : Glyph) (hc : c.globalShift ≤ 32)
+    (ho : OwnBits c f b) :
+    ((setMask1 ((2 ^ b <<< f.shift) % W32) f.mask g).mask &&& f.mask) >>> f.shift = 0 := by
+  rw [(C14_value_recoverable c f b (2 ^ b) g hc ho).1, Nat.mod_self]
+
+/-- finding `ranged-then-global-same-tag`: when a ranged entry `j` of a tag is followed by a global entry `i` of the
+    same tag with value 1, the merged info is "global with max_value 1", so its map entry is the shared GLOBAL bit;
+    `setup_masks` then writes the ranged entry's value into that bit, and an even value clears it — after which no
+    lookup whose mask is the global bit (every default-on feature) applies to that glyph. -/
+theorem known_C14_global_bit_alias (c : Cfg) (j i : Info) (v : Nat) (g : Glyph) (lk : Lookup) (lm : LMap) (rs : Nat)
+    (hs : c.globalShift < 32) (hg : g.mask < W32)
+    (hi : i.flags &&& c.fGlobal ≠ 0) (h1 : i.maxValue = 1) (hv : v % 2 = 0) (hlm : lm.mask = c.globalBit) :
+    usesGlobalBit c (mergeInfo c j i) = true ∧
+    let g' := setMask1 ((v <<< c.globalShift) % W32) c.globalBit g
+    g'.mask &&& c.globalBit = 0 ∧ applyGlyph c lk lm g' rs = (g', rs) := by
+  have hgb : c.globalBit < W32 := by
+    unfold Cfg.globalBit W32
+    exact Nat.lt_of_lt_of_le (Nat.pow_lt_pow_right (by decide) hs) (by decide)
+  have hclr : (setMask1 ((v <<< c.globalShift) % W32) c.globalBit g).mask &&& c.globalBit = 0 := by
+    apply Nat.eq_of_testBit_eq
+    intro k
+    rw [Nat.testBit_and, testBit_setMask1 _ _ g hgb hg, Nat.zero_testBit]
+    unfold Cfg.globalBit
+    rw [Nat.testBit_two_pow]
+    by_cases hk : c.globalShift = k
+    · subst hk
+      have e32 : W32 = 2 ^ 32 := by decide
+      have h0 : v.testBit 0 = false := by
+        rw [Nat.testBit_zero]; simp [hv]
+      have hb : ((v <<< c.globalShift) % W32).testBit c.globalShift = false := by
+        rw [e32, Nat.testBit_mod_two_pow, Nat.testBit_shiftLeft, Nat.sub_self, h0]; simp
+      simp [hb]
+    · simp [hk]
+  refine ⟨?_, hclr, ?_⟩
+  · have hor : ∀ x y : Nat, (x ||| c.fGlobal ||| y) &&& c.fGlobal = c.fGlobal := by
+      intro x y
+      apply Nat.eq_of_testBit_eq
+      intro k
+      simp only [Nat.testBit_and, Nat.testBit_or]
+      cases c.fGlobal.testBit k <;> simp
+    have hne : c.fGlobal ≠ 0 := by
+      intro h0; apply hi; rw [h0]; simp
+    simp [usesGlobalBit, mergeInfo, hi, h1, hor, hne]
+  · exact (C14_zero_disables c ⟨fun _ => false, fun _ => none, fun _ => 0, fun _ _ => none, fun _ _ => none,
+      fun _ _ => none⟩).2.2.2 lk lm _ rs (by rw [hlm]; exact hclr)
+
+example : genCfg.globalShift < 32 ∧ (⟨1, 1, 1, 1, 1, 0, 0⟩ : Info).flags &&& genCfg.fGlobal ≠ 0 := by decide
 
 end RbModel.Props.C14
